@@ -322,8 +322,14 @@ func TestVerifC29Bookkeeping(t *testing.T) {
 				tc.NativeSha512_256Commitment, tc.Sha256Commitment = tc.Sha256Commitment, tc.NativeSha512_256Commitment
 				return true
 			}},
-			{"sha256:=native", func(rm *kit.Rand, tc *TxnCommitments) bool { tc.Sha256Commitment = tc.NativeSha512_256Commitment; return true }},
-			{"native:=sha256", func(rm *kit.Rand, tc *TxnCommitments) bool { tc.NativeSha512_256Commitment = tc.Sha256Commitment; return true }},
+			{"sha256:=native", func(rm *kit.Rand, tc *TxnCommitments) bool {
+				tc.Sha256Commitment = tc.NativeSha512_256Commitment
+				return true
+			}},
+			{"native:=sha256", func(rm *kit.Rand, tc *TxnCommitments) bool {
+				tc.NativeSha512_256Commitment = tc.Sha256Commitment
+				return true
+			}},
 			{"sha512:=native|sha256", func(rm *kit.Rand, tc *TxnCommitments) bool {
 				copy(tc.Sha512Commitment[:32], tc.NativeSha512_256Commitment[:])
 				copy(tc.Sha512Commitment[32:], tc.Sha256Commitment[:])
@@ -343,7 +349,10 @@ func TestVerifC29Bookkeeping(t *testing.T) {
 			}},
 			{"sha256-zeroed", func(rm *kit.Rand, tc *TxnCommitments) bool { tc.Sha256Commitment = crypto.Digest{}; return true }},
 			{"sha512-zeroed", func(rm *kit.Rand, tc *TxnCommitments) bool { tc.Sha512Commitment = crypto.Sha512Digest{}; return true }},
-			{"native-zeroed", func(rm *kit.Rand, tc *TxnCommitments) bool { tc.NativeSha512_256Commitment = crypto.Digest{}; return true }},
+			{"native-zeroed", func(rm *kit.Rand, tc *TxnCommitments) bool {
+				tc.NativeSha512_256Commitment = crypto.Digest{}
+				return true
+			}},
 		}
 		for mi, m := range cms {
 			rm := c.Rand(29, 3, uint64(ci), uint64(mi))
